@@ -114,3 +114,6 @@ def run(P, R, tier):
     iflds = fields.init_fields_of(P, "IVectorStats", ("dim_c", "dim_d", "dim_t"))
     fields.check_add(P, R, "IVectorStats", iflds, rule="FIELDS.add[IVectorStats]")
     fields.check_iadd(P, R, "IVectorStats", iflds, rule="FIELDS.iadd[IVectorStats]")
+    from ..engines import dtype as _dt
+    n_dt = _dt.check_function(P, R, "gmm:e_step", raw_params=("data",))
+    R.floor("DTYPE.raw sites (gmm e_step)", n_dt, 2)
